@@ -5,6 +5,7 @@ import (
 	"os"
 	"sort"
 	"strings"
+	"sync"
 	"unicode/utf8"
 
 	"github.com/openziti/storage/ast"
@@ -163,6 +164,15 @@ func runC11(c *core.Ctx, idx int) {
 	defer func() { _ = db.Close(); _ = os.Remove(path) }()
 	st := sc.St("strs")
 
+	// the look-alike lists come first in every worker process, before this process has parsed any other list (whatever
+	// the library remembers about lists it has seen is empty then), and again at the end of the list cases
+	c11FirstInProcess.Do(func() {
+		for round := 0; round < 2; round++ {
+			c11Lists(c, tbl, db, st, round+idx)
+		}
+		c.Count("list_families_as_the_first_lists_of_a_process", 1)
+	})
+
 	for si, s := range strs {
 		lit := ql.Lit(s)
 		special := strings.ContainsAny(s, "\\\"\n\t\r\f")
@@ -278,6 +288,8 @@ var c11ListFamilies = [][][]string{
 	{{"k", "k"}, {"k"}, {"k, k"}, {"kk"}},
 }
 
+var c11FirstInProcess sync.Once
+
 func c11Lists(c *core.Ctx, tbl *memsym.Table, db *boltz.DbImpl, st *schema.St, round int) {
 	for fi, fam := range c11ListFamilies {
 		// the rows: every element of every list of the family
@@ -315,7 +327,10 @@ func c11Lists(c *core.Ctx, tbl *memsym.Table, db *boltz.DbImpl, st *schema.St, r
 		}
 		order := make([]int, len(fam))
 		for i := range order {
-			order[i] = (i*(1+round%2*2) + round) % len(fam) // another order per round
+			order[i] = (i + round) % len(fam) // another order per round: rotated, and back to front in odd rounds
+			if round%2 == 1 {
+				order[i] = (len(fam) - 1 - i + round) % len(fam)
+			}
 		}
 		for _, li := range order {
 			l := fam[li]
